@@ -110,8 +110,16 @@ def seed_target(engine, ws, scratch):
     log(f"[setup] building dependency seed for engine {engine} (one-off, ~1 min)")
     pkgargs = ["-p", "passage-protocol", "--harness", "verif_seed::seed_probe"] if engine == "x" else \
         ["--harness", "seed::seed_probe"]
+    seed_ws = ws
+    if engine == "x":
+        # the seed only needs third-party dependencies: build it from a copy without the property harness modules,
+        # so that a harness that does not compile cannot take the dependency cache down with it
+        from . import regen
+        seed_ws = os.path.join(scratch, "seedws")
+        shutil.rmtree(seed_ws, ignore_errors=True)
+        regen.regenerate(REPO, VERIF, seed_ws, seed_only=True)
     r = sh(["cargo", "kani", "--only-codegen"] + pkgargs + ["--exact", "-Z", "stubbing",
-            "--target-dir", seed], cwd=ws, check=False, timeout=3600)
+            "--target-dir", seed], cwd=seed_ws, check=False, timeout=3600)
     if r.returncode != 0:
         shutil.rmtree(seed, ignore_errors=True)
         raise RuntimeError("seed build failed:\n" + r.stdout[-6000:])
@@ -140,9 +148,12 @@ def inject_playback(ws, harness, code):
         return None
     p = cands[0]
     s = open(p).read()
-    # place the test inside the same (last) module so the harness fn name resolves
-    idx = s.rstrip().rfind("}")
-    s = s[:idx] + "\n" + code + "\n" + s[idx:]
+    # place the test right after the harness function, i.e. inside the same module
+    from . import regen
+    m = re.search(r"fn\s+" + re.escape(harness.split("::")[-1]) + r"\s*\(", s)
+    brace = s.index("{", m.end())
+    end = regen.match_bracket(s, brace)
+    s = s[:end] + "\n" + code + "\n" + s[end:]
     with open(p, "w") as f:
         f.write(s)
     return p
@@ -221,7 +232,7 @@ def run_property(prop, tier, seed, registry, keep=False):
                 logp = os.path.join(scratch, h["name"].replace("::", "__") + ".log")
                 r = kani.kani_harness(ws, td, h["name"], logp, h.get("timeout_s", 600), mem,
                                       stubbing=True, extra_args=h.get("kani_args", ()),
-                                      pkg=h.get("pkg") if engine == "x" else None)
+                                      pkg=h.get("pkg") if engine == "x" else None, unwindset=h.get("unwindset"))
                 r["spec"] = h
                 r["ws"], r["td"] = ws, td
                 log(f"  [{r['verdict']:12}] {h['name']:48} wall={r['wall_s']}s solver={r['solver_s']}s "
